@@ -710,6 +710,31 @@ mut('ok-c07-ok-negotiate-flag', ['C07'], AU,
     [("            if self.unixFDSupport:\n                self.sendAuthMessage(b'NEGOTIATE_UNIX_FD')\n            else:\n                self.sendAuthMessage(b'BEGIN')\n                self.authenticated = True",
       "            if not self.unixFDSupport:\n                self.sendAuthMessage(b'BEGIN')\n                self.authenticated = True\n                return\n            self.sendAuthMessage(b'NEGOTIATE_UNIX_FD')")], kind='benign')
 
+mut('c03-unknown-code-stops-loop', ['C03'], MS,
+    [("    for code, v in hval[6]:\n        try:\n            setattr(m, _hcode[code], v)\n        except KeyError:\n            pass\n",
+      "    try:\n        for code, v in hval[6]:\n            setattr(m, _hcode[code], v)\n    except KeyError:\n        pass\n")], ['C03.D3'])
+mut('c03-unknown-code-fatal', ['C03'], MS,
+    [("        try:\n            setattr(m, _hcode[code], v)\n        except KeyError:\n            pass\n", "        setattr(m, _hcode[code], v)\n")], ['C03.D3'])
+mut('ok-c03-unknown-code-get', ['C03'], MS,
+    [("        try:\n            setattr(m, _hcode[code], v)\n        except KeyError:\n            pass\n", "        if code in _hcode:\n            setattr(m, _hcode[code], v)\n")], kind='benign')
+mut('ok-c06-guard-hoisted-and-kept', ['C06', 'C04', 'C07'], PR,
+    [("            self._buffer = self._buffer + data\n            # Consume one line at a time", "            if self.transport.disconnecting:\n                return\n            self._buffer = self._buffer + data\n            # Consume one line at a time")], kind='benign',
+    note='an extra early return while the connection is already closing')
+
+mut('ok-c04-refeed-remainder-as-argument', ['C04', 'C06', 'C07'], PR,
+    [("                            if self._buffer:\n                                self.dataReceived(b'')\n",
+      "                            if self._buffer:\n                                rest, self._buffer = self._buffer, b''\n                                self.dataReceived(rest)\n")], kind='benign',
+    note='the remainder is handed to the re-entrant call instead of staying in the buffer')
+mut('c04-refeed-drops-remainder', ['C04'], PR,
+    [("                            if self._buffer:\n                                self.dataReceived(b'')\n",
+      "                            if self._buffer:\n                                self._buffer = b''\n                                self.dataReceived(b'')\n")], ['C04.D5'])
+mut('c04-byteorder-at-message-start', ['C04'], PR,
+    [("                if self._nextMsgLen == 0 and buffer_len >= 16:\n                    # There would be multiple clients using different\n                    # endians. Reset endian every time.\n                    if self._buffer[:1] != b'l':\n                        self._endian = '>'\n                    else:\n                        self._endian = '<'\n",
+      "                if self._nextMsgLen == 0 and buffer_len >= 16:\n"),
+     ("        if self._authenticated:\n            self._buffer = self._buffer + data\n",
+      "        if self._authenticated:\n            if not self._buffer:\n                if data[:1] != b'l':\n                    self._endian = '>'\n                else:\n                    self._endian = '<'\n            self._buffer = self._buffer + data\n")], ['C04.D1'],
+    note='round-2 seed: byte order read when a read starts on an empty buffer')
+
 # benign variants --------------------------------------------------------------
 mut('ok-int16-condexpr', ['C01', 'C02'], M,
     [("return 2, [struct.pack(lendian and '<h' or '>h', var)]",
